@@ -18,7 +18,7 @@ ID = "C17"
 RULE = ("histories of 3-20 operations: create root connection (http/https address, with/without trailing slash or base "
         "path, plain or authenticating), wrap any live connection by HttpConn with 0-2 adapters (path prefix with/without "
         "slashes, tagging adapter) given as list / tuple / single / none or by BAuthConn / ClientAuthConn / TokenAuthConn "
-        "(at most one auth layer per chain), build MCallerHttp subclass instances on a connection or an address, clone() "
+        "(at most one auth layer per chain), add_adapter() on any live connection, build MCallerHttp subclass instances on a connection or an address, clone() "
         "them with None / one adapter / list / tuple, issue get/post/put/delete/patch through any live connection or a "
         "caller method with params needing url-encoding, data None/str/bytes/structured, caller headers, raw_response, "
         "empty or JSON response bodies. Non-trivial = a request through a chain of depth >=2 containing an auth layer, or a "
@@ -338,6 +338,22 @@ def run_history(case):
                 w.conns.append({"obj": obj, "root": parent["root"], "chain": own + parent["chain"],
                                 "address": parent["address"], "derived": 0})
                 w.classes.add("wrap_" + layer["t"])
+            elif kind == "add_adapter":
+                if not w.conns:
+                    continue
+                c = w.conns[op[1] % len(w.conns)]
+                ad = op[2]
+                if c.get("caller_base"):
+                    # a method caller built on an HttpConn uses that very object (not a derived one) and snapshots
+                    # it lazily per component prefix: what add_adapter means for it is not specified - not generated
+                    continue
+                c["obj"].add_adapter(w.mk_adapter(ad))
+                # appended to this connection's own chain only: processed after the existing adapters; connections
+                # derived earlier keep their chains, connections derived later include it
+                c["chain"] = c["chain"] + [ad]
+                w.classes.add("add_adapter")
+                if c["derived"] or any(o is not c and o["root"] == c["root"] for o in w.conns):
+                    w.classes.add("add_adapter_on_shared_implementation")
             elif kind == "caller":
                 cls_i = op[2] % 2
                 cls = w.K["callers"][cls_i]
@@ -352,6 +368,7 @@ def run_history(case):
                     parent = w.conns[op[1] % len(w.conns)]
                     obj = cls(parent["obj"])
                     parent["derived"] += 1
+                    parent["caller_base"] = True
                     base = {"root": parent["root"], "chain": list(parent["chain"]), "address": parent["address"], "derived": 0}
                 w.callers.append({"obj": obj, "cls": cls_i, "base": base})
                 w.classes.add("caller_created")
@@ -475,6 +492,7 @@ def st_ops():
         st.tuples(st.just("root"), st.sampled_from(ADDRS), st_layer()),
         st.tuples(st.just("wrap"), idx, st_layer()),
         st.tuples(st.just("wrap"), idx, st_layer()),
+        st.tuples(st.just("add_adapter"), idx, st_adapter()),
         st.tuples(st.just("caller"), idx, st.integers(0, 1), st.sampled_from(["by_conn", "by_conn", "by_address"])),
         st.tuples(st.just("clone"), idx, st.lists(st_adapter(), max_size=2), st.sampled_from(["none", "single", "list", "tuple"])),
         st.tuples(st.just("req"), idx, st_reqargs()),
